@@ -1,4 +1,5 @@
 import UmProofs.BrokerFailoverBalance
+import UmProofs.BrokerOrdered
 /-!
 # C06 — `replace_failed_proxy` = `takeover_master` + (optional) replacement of the failed half
 
@@ -206,24 +207,32 @@ theorem generateNewFreeProxy_mem {s : Store} {f choice : String} {np : ProxyRes}
     intro x y hxy
     exact G_id _ _ _ _ _ _ hxy
 
-/-- the two possible shapes of the store after `replace_failed_proxy` of a proxy that sits in a
-chunk of its cluster: no replacement (error/rejected choice; the cluster is the one after the
-takeover and the proxy is marked failed) or replacement by a proxy that was free, not failed
-and unreported after the takeover -/
+/-- the three possible shapes of the store after `replace_failed_proxy` of a proxy that sits in a
+chunk of its cluster. Normal mode: no replacement (error/rejected choice; the cluster is the one
+after the takeover and the proxy is marked failed) or replacement by a proxy that was free, not
+failed and unreported after the takeover. Ordered mode (`enable_ordered_proxy`): the takeover, a
+second epoch bump, `Ok(None)`; the proxy is neither marked failed nor replaced. -/
 theorem replaceFailedProxy_cases {s : Store} {p choice name : String} {pr : ProxyRes} {cl : Cluster} {k h : Nat}
     {c : Chunk} (hp : s.findProxy p = some pr) (hc : pr.cluster = some name) (hcl : s.findCluster name = some cl)
     (hf : failedAt p cl.chunks = some (k, h)) (hk : cl.chunks[k]? = some c) :
     let e := s.globalEpoch + 1
     let cl1 := afterTakeover cl k h e c
     let res := replaceFailedProxy s p choice
-    (res.1.findCluster name = some cl1 ∧ (∀ a, res.2 ≠ R.ok a) ∧ res.1.globalEpoch = e ∧ p ∈ res.1.failed ∧
+    (s.ordered = false ∧
+        res.1.findCluster name = some cl1 ∧ (∀ a, res.2 ≠ R.ok a) ∧ res.1.globalEpoch = e ∧ p ∈ res.1.failed ∧
         res.1.proxies = s.proxies ∧ res.1.failures = s.failures ∧
         res.1 = markFailed (takeoverMaster s name p).1 p) ∨
-    (∃ np c1, np ∈ (markFailed (takeoverMaster s name p).1 p).freeProxies ∧ cl1.chunks[k]? = some c1 ∧
+    (s.ordered = false ∧
+      ∃ np c1, np ∈ (markFailed (takeoverMaster s name p).1 p).freeProxies ∧ cl1.chunks[k]? = some c1 ∧
         c1.role = newRole h ∧ res.2 = R.ok (some np.addr) ∧ res.1.globalEpoch = e + 1 ∧ p ∈ res.1.failed ∧
-        res.1.findCluster name = some (replCluster cl1 k h np c1 (e + 1))) := by
+        res.1.findCluster name = some (replCluster cl1 k h np c1 (e + 1))) ∨
+    (s.ordered = true ∧
+        res.1.findCluster name = some cl1 ∧ res.2 = R.ok none ∧ res.1.globalEpoch = e + 1 ∧
+        res.1.failed = s.failed ∧ res.1.proxies = s.proxies ∧ res.1.failures = s.failures ∧
+        res.1 = (takeoverMaster s name p).1.bump) := by
   intro e cl1 res
-  obtain ⟨t2, tge, tprox, -, tfail, tfind⟩ := takeoverMaster_find hcl hf hk
+  obtain ⟨t2, tge, tprox, tfailed, tfail, tfind⟩ := takeoverMaster_find hcl hf hk
+  have tord := Ord.takeoverMaster_ordered s name p
   have hres : res = replaceFailedProxy s p choice := rfl
   unfold replaceFailedProxy at hres
   simp only [hp, hc] at hres
@@ -232,13 +241,22 @@ theorem replaceFailedProxy_cases {s : Store} {p choice name : String} {pr : Prox
   rw [hto] at hres
   simp only at hres
   generalize (takeoverMaster s name p).1 = s1 at *
+  by_cases ho : s1.ordered = true
+  · -- ordered mode
+    rw [if_pos ho] at hres
+    right; right
+    rw [hres]
+    exact ⟨by rw [← tord]; exact ho, tfind, rfl, by show s1.globalEpoch + 1 = e + 1; rw [tge], tfailed, tprox, tfail, rfl⟩
+  rw [if_neg ho] at hres
+  have ho' : s.ordered = false := by rw [← tord]; simpa using ho
   have hmf : ({ s1 with failed := if s1.failed.contains p = true then s1.failed else s1.failed ++ [p] } : Store)
       = markFailed s1 p := rfl
   rw [hmf] at hres
   have hfind2 : (markFailed s1 p).findCluster name = some cl1 := tfind
   cases hg : generateNewFreeProxy (markFailed s1 p) p choice with
   | ok np =>
-    right
+    right; left
+    refine ⟨ho', ?_⟩
     rw [hg] at hres
     simp only at hres
     have hfind3 : (markFailed s1 p).bump.findCluster name = some cl1 := hfind2
@@ -265,14 +283,14 @@ theorem replaceFailedProxy_cases {s : Store} {p choice name : String} {pr : Prox
   | err er =>
     left; rw [hg] at hres; simp only at hres
     rw [hres]
-    exact ⟨hfind2, (fun a ha => by cases ha), tge, mem_markFailed s1 p, tprox, tfail, rfl⟩
+    exact ⟨ho', hfind2, (fun a ha => by cases ha), tge, mem_markFailed s1 p, tprox, tfail, rfl⟩
   | panic w =>
     left; rw [hg] at hres; simp only at hres
     rw [hres]
-    exact ⟨hfind2, (fun a ha => by cases ha), tge, mem_markFailed s1 p, tprox, tfail, rfl⟩
+    exact ⟨ho', hfind2, (fun a ha => by cases ha), tge, mem_markFailed s1 p, tprox, tfail, rfl⟩
   | badChoice w =>
     left; rw [hg] at hres; simp only at hres
     rw [hres]
-    exact ⟨hfind2, (fun a ha => by cases ha), tge, mem_markFailed s1 p, tprox, tfail, rfl⟩
+    exact ⟨ho', hfind2, (fun a ha => by cases ha), tge, mem_markFailed s1 p, tprox, tfail, rfl⟩
 
 end Um.Broker.C06
